@@ -2,7 +2,7 @@ CONSTANTS
  Alphabet <- MCAlphabet
  RootKinds <- MCRoots
  MaxRoots = 1
- MaxNodes = 5
+ MaxNodes = 6
  MaxDepth = 3
  MinDump = 0
  Dump = TRUE
